@@ -135,10 +135,19 @@ func (w *_nodeRepr) LookupByString(key string) (datamodel.Node, error) {
 	}
 	switch stg := reprStrategy(w.schemaType).(type) {
 	case schema.StructRepresentation_Map:
-		revKey := inboundMappedKey(w.schemaType.(*schema.TypeStruct), stg, key)
+		typ := w.schemaType.(*schema.TypeStruct)
+		revKey := inboundMappedKey(typ, stg, key)
+		if field := typ.Field(revKey); field != nil && stg.GetFieldKey(*field) != key {
+			// The name of a field that is represented by another key.
+			return nil, datamodel.ErrNotExists{Segment: datamodel.PathSegmentOfString(key)}
+		}
 		v, err := (*_node)(w).LookupByString(revKey)
 		if err != nil {
 			return nil, err
+		}
+		if v.IsAbsent() {
+			// An absent optional field has no entry in the representation.
+			return nil, datamodel.ErrNotExists{Segment: datamodel.PathSegmentOfString(key)}
 		}
 		return reprNode(v), nil
 	case schema.UnionRepresentation_Keyed:
